@@ -459,6 +459,9 @@ func histRecord(c *CaseHist, st *histStats, prop string) {
 func TestC04(t *testing.T) {
 	Col.Property = "C04"
 	ReplayRegress(t, "C04")
+	t.Run("big-frames-under-settings", func(t *testing.T) {
+		bigFrameEnvCases(t, "C04", "c04", lenFrames, oracleC04)
+	})
 	t.Run("histories", func(t *testing.T) {
 		CheckProp(t, "C04", "c04", "histories", func(rt *rapid.T) *CaseHist {
 			c, st := genHistory(rt, lenFrames, false, true)
@@ -474,6 +477,10 @@ func TestC05(t *testing.T) {
 	t.Run("special-checksum-values", func(t *testing.T) {
 		specialChecksumCases(t)
 		Col.MarkExhaustive("every registered body type of the three checksummed frames with the frame checksum forced (by solving for a free body field) to 0, all-ones, 1, 0x80.. and the caller's stale value")
+	})
+	t.Run("big-frames-under-settings", func(t *testing.T) {
+		bigFrameEnvCases(t, "C05", "c05", ckFrames, oracleC05)
+		Col.MarkExhaustive("every list/text-carrying body type of the checksummed frames at ~70 KB, ~300 KB, ~1.1 MB under GOMAXPROCS 1 and 2, debug log level, reader-style services")
 	})
 	t.Run("histories", func(t *testing.T) {
 		CheckProp(t, "C05", "c05", "histories", func(rt *rapid.T) *CaseHist {
@@ -608,6 +615,44 @@ func leadingZeros32(x uint32) int {
 		n++
 	}
 	return 32
+}
+
+// bigFrameEnvCases: large frames (70 KB, 300 KB, 1.1 MB) of every list-carrying body type under each process-wide
+// setting (one CPU, two CPUs, debug log level, reader-style service): services that switch strategy with size or
+// parallelism are exercised deliberately, not by luck.
+func bigFrameEnvCases(t *testing.T, prop, check string, frames []string, oracle func(*CaseHist) *Failure) {
+	seed := int(EnvSeed() % 1000003)
+	i := 0
+	for _, ft := range frames {
+		ts := Types[ft]
+		tb := TableOf(ts, &ts.Fields[ts.DynIndex()])
+		seenBody := map[string]bool{}
+		for _, key := range tb.Order {
+			bt := tb.TypeFor(key)
+			if seenBody[bt] || !bodyHasVar(Zero(bt)) {
+				continue
+			}
+			seenBody[bt] = true
+			for _, size := range []int{70000, 300000, 1100000} {
+				for _, env := range [][]PreOp{{{Kind: "procs", K: 1}}, {{Kind: "procs", K: 2}}, {{Kind: "slogdebug"}}, {{Kind: "swapsvc", Algo: "SSE_BIN"}, {Kind: "swapsvc", Algo: "SZSE_BIN"}, {Kind: "swapsvc", Algo: "CRC32"}}} {
+					i++
+					if !MyShare(i) {
+						continue
+					}
+					o := GenOpts{Mode: Canonical, MaxList: 20, ForceKey: key}
+					v := rapid.Custom(func(rt *rapid.T) *Value { rapid.Bool().Draw(rt, "_"); x, _ := GenValue(rt, ft, o); return x }).Example(seed + i)
+					if !resizeFrameTo(v, size) || len(Render(v, nil).Bytes) < size/2 {
+						continue
+					}
+					c := &CaseHist{Ops: []Op{{Kind: "write", Raw: HexBytes{9, 9, 9}}, {Kind: "encode", V: v}}, Env: env}
+					Col.Case(Hash64([]byte(ft), []byte(key), []byte(fmt.Sprint(size, env))), true, "big-frame-under-process-setting", fmt.Sprintf("frame~%dKB", size/1000))
+					if !Direct(t, prop, check, fmt.Sprintf("bigenv/%s/%s/%d/%s", ft, key, size, env[0].Kind), c, oracle) {
+						return
+					}
+				}
+			}
+		}
+	}
 }
 
 func specialChecksumCases(t *testing.T) {
